@@ -281,4 +281,99 @@ Proof.
   unfold ndim_of. rewrite (tensor_block (coef t) _ _ _ _ _ AR). reflexivity.
 Qed.
 
+
+(* ---------------------------------------------------------------------------------------------- *)
+(* all coefficients one => value one in the fully supported region *)
+Definition fully_supported (d : @dimn A) (x : K) : Prop :=
+  le (d_kn d (Z.of_nat (d_order d))) x /\ le x (d_kn d (d_naxes d)).
+
+Lemma localbasis_sum_one (d : @dimn A) (x : K) (c : Z) :
+  wf_dim anyord d -> in_range d x -> center_post d x c -> eval_regular d x -> fully_supported d x ->
+  sumK (localbasis_val d x c) = one.
+Proof.
+  intros Hw Hr Hp Hreg [S1 S2].
+  destruct (lookup_walk_post d x c Hw Hr Hp Hreg) as [Hmono [W1 [W2 [Hc W]]]].
+  unfold localbasis_val.
+  apply (bsplvb_simple_sum_one F _ _ Hmono _ x _ c W).
+  destruct Hp as [P1 [P2 [P3 P4]]].
+  apply (adjust_left_stays F); [lia| |].
+  - destruct (leb (d_kn d (d_naxes d)) x) eqn:E.
+    + specialize (P4 eq_refl). subst c. eapply (le_trans F); [|exact E]. apply Hmono; lia.
+    + apply (nle_lt F) in E. exact (proj1 (P2 S1 E)).
+  - destruct (leb (d_kn d (d_naxes d)) x) eqn:E.
+    + specialize (P4 eq_refl). subst c. replace (d_naxes d - 1 + 1) with (d_naxes d) by lia. exact S2.
+    + apply (nle_lt F) in E. apply (lt_le F). exact (proj2 (P2 S1 E)).
+Qed.
+
+Theorem eval_all_ones (t : @table A) (xs : list K) (cs : list Z) :
+  dims t <> [] ->
+  Forall (wf_dim anyord) (dims t) ->
+  nth (ndim_of t - 1) (strides_of t) 0 = 1 ->
+  length xs = length (dims t) ->
+  searchcenters t xs = CFound cs ->
+  Forall2 eval_regular (dims t) xs ->
+  (forall p, coef t p = one) ->
+  Forall2 fully_supported (dims t) xs ->
+  ndsplineeval t xs cs 0 = one.
+Proof.
+  intros Hne Hwf Hs1 Hlen Hsc Hreg Hones Hfs.
+  assert (Hall : Forall anyord xs) by (apply Forall_forall; intros; exact I).
+  pose proof (sc_post anyord laws t xs Hwf Hall Hlen cs Hsc) as HP.
+  assert (HR : Forall2 in_range (dims t) xs).
+  { apply (sc_accepts_iff anyord laws t xs Hwf Hall Hlen). exists cs. exact Hsc. }
+  assert (Hcs : length cs = length (dims t)).
+  { clear - HP. induction HP; cbn [length]; lia. }
+  pose proof (localbases_mask_zero (dims t) xs cs Hlen Hcs HR HP Hreg Hwf) as AR.
+  destruct (all_rel_lengths _ _ _ _ _ AR) as [L1 L2].
+  unfold ndsplineeval.
+  rewrite core_generic_block; [| exact Hne | exact L1 | exact L2 | exact Hs1].
+  rewrite (block_sum_ones F (coef t) Hones) by (rewrite L1; unfold strides_of; rewrite map_length; reflexivity).
+  assert (P : prodsum (localbases_mask (dims t) xs cs 0) = one).
+  { clear - F HP HR Hreg Hwf Hfs. revert Hwf HR Hreg Hfs.
+    induction HP as [|d x c ds xs' cs' Pd HP IH]; intros Hwf HR Hreg Hfs; [reflexivity|].
+    inversion Hwf; subst. inversion HR; subst. inversion Hreg; subst. inversion Hfs; subst.
+    cbn [localbases_mask]. change (Z.odd 0) with false. change (0 / 2) with 0. cbv iota. cbn [prodsum].
+    rewrite IH by assumption. rewrite (localbasis_sum_one d x c) by assumption. apply (Rmul_1_l (F_R (OFth F))). }
+  rewrite P. apply (Rmul_1_l (F_R (OFth F))).
+Qed.
+
+(* ---------------------------------------------------------------------------------------------- *)
+(* the specification, hence the evaluated value, does not depend on the knot padding outside [0, nknots) nor on
+   coefficient storage outside the table *)
+Lemma Bfun_ext (kn kn' : Z -> K) side x : forall n i, (forall j, i <= j <= i + Z.of_nat n + 1 -> kn j = kn' j) ->
+  Bfun kn side n i x = Bfun kn' side n i x.
+Proof.
+  induction n as [|n IH]; intros i H.
+  - cbn [Bfun]. unfold B0. rewrite (H i), (H (i + 1)) by lia. reflexivity.
+  - cbn [Bfun]. rewrite (IH i), (IH (i + 1)) by (intros; apply H; lia).
+    rewrite (H i), (H (i + Z.of_nat (S n))), (H (i + Z.of_nat (S n) + 1)), (H (i + 1)) by lia. reflexivity.
+Qed.
+
+
+Lemma sum_range_ext (f g : Z -> K) : forall n a, (forall i, a <= i < a + Z.of_nat n -> f i = g i) -> sum_range f a n = sum_range g a n.
+Proof.
+  induction n as [|n IH]; intros a H; cbn [sum_range]; [reflexivity|].
+  rewrite H by lia. rewrite (IH (a + 1)) by (intros i Hi; apply H; lia). reflexivity.
+Qed.
+
+(* two dimensions that differ only in the padding of the knot array *)
+Definition same_dim (d d' : @dimn A) : Prop :=
+  d_order d = d_order d' /\ d_nknots d = d_nknots d' /\ d_naxes d = d_naxes d' /\ d_stride d = d_stride d' /\
+  forall i, 0 <= i < d_nknots d -> d_kn d i = d_kn d' i.
+
+Lemma tensor_sum_padding (cf : Z -> K) : forall ds ds' xs pos pr,
+  Forall2 same_dim ds ds' -> Forall (fun d => d_naxes d = d_nknots d - Z.of_nat (d_order d) - 1 /\ 0 <= Z.of_nat (d_order d) + 1 <= d_nknots d) ds ->
+  tensor_sum cf ds xs (repeat O (length ds)) pos pr = tensor_sum cf ds' xs (repeat O (length ds')) pos pr.
+Proof.
+  induction ds as [|d ds IH]; intros ds' xs pos pr H2 Hw; inversion H2 as [|? d' ? ds'' Hd Hds]; subst; [reflexivity|].
+  inversion Hw as [|? ? [W1 W2] Hws]; subst.
+  destruct xs as [|x xs]; [reflexivity|]. cbn [length repeat tensor_sum].
+  destruct Hd as [E1 [E2 [E3 [E4 E5]]]].
+  rewrite <- E3. apply sum_range_ext. intros i Hi. cbv zeta. cbn [dBfun].
+  assert (Es : side_of d x = side_of d' x) by (unfold side_of; rewrite <- E3, (E5 (d_naxes d)) by lia; reflexivity).
+  assert (Eb : Bfun (d_kn d) (side_of d x) (d_order d) i x = Bfun (d_kn d') (side_of d' x) (d_order d') i x).
+  { rewrite <- Es, <- E1. apply Bfun_ext. intros j Hj. apply E5. lia. }
+  rewrite Eb, <- E4. destruct (eqbK _ zero); [reflexivity|]. apply IH; assumption.
+Qed.
+
 End Assembly.
